@@ -243,7 +243,8 @@ def gen_world(rng: random.Random, via: str) -> World:
         cfgs[0] = ("default", "default")
     w.m[db1]["sqlr"], w.m[db1]["dbmlr"] = cfgs[0]
     for c in cfgs[1:]:
-        w.db(sqlr=c[0], dbmlr=c[1])
+        h = w.db(sqlr=c[0], dbmlr=c[1])
+        w.m[h]["positional"] = rng.random() < 0.5
     # loose objects that can be added / moved
     tables = []
     for k in range(rng.randint(1, 3)):
